@@ -53,6 +53,19 @@ void ledger_track(bool on);
 // everything else with EAI_NONAME at once (no DNS in the sandbox); log (node, service, flags)
 void gai_offline(bool on);
 
+// --- additions for C14/C17 (opt-in; defaults keep the behaviour above unchanged) ---
+// quiet: intercepted calls are neither counted, fault-injected nor logged (setup / teardown phases of a
+// scenario); the descriptor ledger keeps tracking
+void quiet(bool on);
+// label descriptors "fd<k>" with k from a counter that is never reused (default: reuse after close)
+void monotone_ordinals(bool on);
+// strict ledger: a close() of a descriptor the library never opened is recorded as "foreign close"
+// (harnesses that enable this close their own descriptors with raw syscalls)
+void ledger_strict(bool on);
+// a successful getaddrinfo / getnameinfo leaves errno = ENOTTY (errno is unspecified after success; the real
+// resolver does touch it): code that reads errno after formatting an address picks up garbage
+void clobber_errno(bool on);
+
 // statistics
 long count(std::string const &sys);
 long scripted_fired();
